@@ -12,6 +12,8 @@ AKAI_N4 = ["A", "A L", "A R", "A -L", "A  L", "A  R"]
 ROLAND_NAMES = ["A", "A L", "A R", "A-L", "a L", "A (2)", "A (2) L", "A R ", "B-R"]
 LEN_EQ = [10, 10, 10, 10]
 LEN_UNEQ = [10, 7, 9, 8]
+LEN_ONE = [1, 1, 1, 1]                  # a single frame
+LEN_BLOCK1 = [2049, 2049, 2049, 2049]   # one frame more than the transcoder's 4096-byte block
 
 
 AKAI_RATES = [44100, 22050, 32000, 48000]
@@ -102,7 +104,7 @@ def judge(names, lens, res, pcms, prefix):
 
 def run_case(case):
     names = case["names"]
-    lens = LEN_EQ if case["lens"] == "eq" else LEN_UNEQ
+    lens = {"eq": LEN_EQ, "uneq": LEN_UNEQ, "one": LEN_ONE, "block1": LEN_BLOCK1}[case["lens"]]
     if case["fmt"] == "akai":
         img, pcms, prefix = akai_image(names, lens, case.get("rates", "same"))
     else:
@@ -118,8 +120,9 @@ class Check(CheckBase):
     title = "Left/right pairs merge into one stereo file; no sample is lost or duplicated"
     rule = ("all ordered k-tuples of sibling names (every ordering of every multiset) over a near-collision alphabet: AKAI "
             "volume, 14 names, k<=3 (quick) / k<=4 (thorough), plus all 4-tuples over the reduced 6-name alphabet; Roland "
-            "performance, 9 names, k<=2 (quick) / k<=3 (thorough); equal lengths, and unequal lengths and differing sample "
-            "rates for k<=2 (quick) / all (thorough). Oracle: every sample's position-coded PCM in exactly one channel of exactly one file; channel sum = "
+            "performance, 9 names, k<=2 (quick) / k<=3 (thorough); equal lengths (10 frames), and unequal lengths, differing sample "
+            "rates, single-frame samples and samples of 2049 frames (one more than the transcoder block) for k<=2 (quick) / "
+            "all (thorough). Oracle: every sample's position-coded PCM in exactly one channel of exactly one file; channel sum = "
             "sample count; unambiguous P+'L'/P+'R' pairs (P ending in blank/hyphen, exactly one of each) in one 2-channel file, "
             "L in channel 0, all frames when equal length, named after the stem when the stem is safe and unclaimed; others "
             "mono. non-trivial = tuple containing a name of the L/R form")
@@ -135,6 +138,8 @@ class Check(CheckBase):
                 if k <= 2 or not self.quick:
                     cases.append({"fmt": "akai", "names": list(t), "lens": "uneq"})
                     cases.append({"fmt": "akai", "names": list(t), "lens": "eq", "rates": "diff"})
+                    cases.append({"fmt": "akai", "names": list(t), "lens": "one"})
+                    cases.append({"fmt": "akai", "names": list(t), "lens": "block1"})
         if self.quick:
             for t in itertools.product(AKAI_N4, repeat=4):
                 cases.append({"fmt": "akai", "names": list(t), "lens": "eq"})
@@ -145,6 +150,7 @@ class Check(CheckBase):
                 if k <= 2:
                     cases.append({"fmt": "roland", "names": list(t), "lens": "uneq"})
                     cases.append({"fmt": "roland", "names": list(t), "lens": "eq", "rates": "diff"})
+                    cases.append({"fmt": "roland", "names": list(t), "lens": "block1"})
         ak = [c for c in cases if c["fmt"] == "akai"]
         ro = [c for c in cases if c["fmt"] == "roland"]
         return self.chunk(ak, 60) + self.chunk(ro, 6)
